@@ -12,7 +12,8 @@ R02.2 filter: the datapoints kept are those for which the condition is TRUE: the
       column
 R02.3 sub: the fixed identifiers are removed from the result and every one of them is tested by exactly one equality in WHERE
 R02.4 the clause scope (current dataset, column prefix, in-clause flag) is restored on every exit of the handler that sets it
-      (shared rule RT.3b), and the transpiler reads every field of RegularAggregation and RenameNode
+      (shared rule RT.3b), the calc expressions and the filter condition are translated inside it (RT.5; the fixed value of sub
+      is a scalar and is exempt), and the transpiler reads every field of RegularAggregation and RenameNode
 Not decided: the per-datapoint value of calc expressions and of filter conditions (DuckDB evaluates them).
 """
 from __future__ import annotations
@@ -55,14 +56,22 @@ def run(rep: Report, tier: str) -> None:  # noqa: C901
         jobs.append(("rename", [], ren))
     for names in (["A"], ["B"], ["A", "B"]):
         jobs.append(("sub", names, None))
+    # calc with every role keyword the interpreter accepts (ROLE_SETTER_MAPPING: token -> role-setter class -> Role member)
+    role_tokens = _role_tokens(P)
+    rep.floor("R02.1 calc role keywords", len(role_tokens), 4)
+    jobs2: List[Tuple[str, List[str], Optional[List[Tuple[str, str]]], str, Optional[str]]] = [(op, n, r, "MEASURE", role_tokens.get("MEASURE") if op == "calc" else None) for op, n, r in jobs]
+    for rname, tok in sorted(role_tokens.items()):
+        for names in (["X"], ["M"], ["T"], ["V"], ["X", "N"]):
+            if rname != "MEASURE":
+                jobs2.append(("calc", names, None, rname, tok))
     n_ok = 0
-    for op, names, ren in jobs:
-        label = f"{op}/{'+'.join(names) if names else '+'.join(f'{a}>{b}' for a, b in ren or [])}"
+    for op, names, ren, rname, tok in jobs2:
+        label = f"{op}/{'+'.join(names) if names else '+'.join(f'{a}>{b}' for a, b in ren or [])}" + (f"/as-{rname.lower()}" if op == "calc" and rname != "MEASURE" else "")
         try:
-            a = sm.clause_interpreter(M, op, D(), names, ren)
-            b = sm.clause_visitor(M, op, D(), names, ren)
+            a = sm.clause_interpreter(M, op, D(), names, ren, role=rname)
+            b = sm.clause_visitor(M, op, D(), names, ren, role_token=tok)
             d = D()
-            c = sm.clause_sql(M, op, d, names, ren)
+            c = sm.clause_sql(M, op, d, names, ren, role_token=tok)
         except Unmodelled as e:
             raise AnalysisError(f"R02.1 {label}: construct outside the evaluator's language: {e}")
         if a[0] != "ok":
@@ -79,14 +88,32 @@ def run(rep: Report, tier: str) -> None:  # noqa: C901
             rep.add(transp.fnd("R02.1", f"{op}/builder/{label}", fb, fb.node.lineno,
                                f"{op} {names or ren} on DS_1(ids A,B; measures M,N,O; attribute T; viral V): semantic analysis gives components {[n for n, _ in va]} but the "
                                f"transpiler's structure for the clause result is {[n for n, _ in vb] if vb else b}: whatever follows the clause in the same statement works on the wrong components"))
-        elif op != "calc" and dict(va) != dict(vb):
-            diff = {n: (dict(va)[n], dict(vb)[n]) for n in dict(va) if dict(va)[n] != dict(vb)[n]}
+        elif dict(va) != dict(vb):
+            diff = {n: (str(dict(va)[n]), str(dict(vb)[n])) for n in dict(va) if dict(va)[n] != dict(vb)[n]}
             rep.add(transp.fnd("R02.1", f"{op}/builder-roles/{label}", fb, fb.node.lineno,
-                               f"{op} {names or ren}: the clause must not change roles, but validator and structure builder disagree on {diff}"))
+                               f"{op} {names or ren}" + (f" with role `{tok}`" if op == "calc" else "") + f": semantic analysis and the transpiler's structure builder disagree on the role of {diff} "
+                               f"(validator, builder): operations applied to the clause result in the same statement treat the component by the wrong role"))
+        if op == "calc":
+            fv = P.func(f"{sm.CLAUSE_VALIDATORS[op]}.validate")
+            wrong = {n: str(dict(va).get(n)) for n in names if dict(va).get(n) != M.roles[rname]}
+            other = {n: (str(r0), str(dict(va).get(n))) for n, r0 in sm.comp_summary(D()) if n not in names and dict(va).get(n) != r0}
+            if wrong:
+                rep.add(transp.fnd("R02.1", f"calc/validator-role/{label}", fv, fv.node.lineno,
+                                   f"calc {names} with role `{tok}`: semantic analysis gives the calculated component(s) the role {wrong}, not {M.roles[rname]}"))
+            if other:
+                rep.add(transp.fnd("R02.1", f"calc/validator-other/{label}", fv, fv.node.lineno,
+                                   f"calc {names}: semantic analysis changes the role of components the clause does not name: {other}"))
         if cols is None or sorted(n for n, _ in va) != cols:
             rep.add(transp.fnd("R02.1", f"{op}/sql/{label}", fs, fs.node.lineno,
                                f"{op} {names or ren} on DS_1(ids A,B; measures M,N,O; attribute T; viral V): semantic analysis gives components {sorted(n for n, _ in va)} but the "
                                f"SELECT list generated for the clause delivers {cols}: the clause changes components other than the listed ones"))
+        if op == "calc" and c[0] == "ok" and not isinstance(c[1], str):
+            for item, redefined in sm.expression_scopes(c[1]):
+                rep.instance("R02.1", f"calc/scope/{label}/{item[:30]}", nontrivial=True, sample={"item": item, "redefined-below": redefined})
+                if redefined and not any(x.key.endswith(f"calc/scope/{label}") for x in rep.findings):
+                    rep.add(transp.fnd("R02.1", f"calc/scope/{label}", fs, fs.node.lineno,
+                                       f"calc {names} on DS_1(…): the generated query evaluates `{item}` above a level that has already replaced column(s) {redefined}: "
+                                       f"an expression that reads such a component sees the NEW value, but every calc expression is defined over the input dataset (simultaneous assignment)"))
         if op == "sub" and c[0] == "ok":
             ws = c[1].wheres
             want = sorted(f'"{n}"' for n in names)
@@ -132,8 +159,29 @@ def run(rep: Report, tier: str) -> None:  # noqa: C901
     # ---- R02.4 ----
     transp.field_coverage(P, rep, "R02.4", ["RegularAggregation", "RenameNode"], EXEMPT, "clause")
     transp.state_discipline(P, rep, "R02.4", only_attrs={"_in_clause", "_current_dataset", "_column_prefix"}, parts="b")
+    n_scope = transp.scope_coverage(P, rep, "R02.4", only={"visit_RegularAggregation_calc", "visit_RegularAggregation_filter", "visit_RegularAggregation_sub"})
+    rep.floor("R02.4 clause expressions translated", n_scope, 2)
     rep.assumptions = ["abstract structures: names and roles only; expressions inside calc/filter are opaque", "SQL: WHERE keeps the rows for which its predicate is TRUE",
                        "SQLBuilder is modelled as an accumulator of select/from/where (sql_builder.py read once: select extends, where appends with AND)"]
+
+
+def _role_tokens(P: Program) -> Dict[str, str]:
+    """Role member name -> calc role keyword, read from vtlengine.Utils.ROLE_SETTER_MAPPING and the role-setter classes"""
+    m = P.module("vtlengine.Utils")
+    out: Dict[str, str] = {}
+    for st in m.tree.body:
+        if isinstance(st, ast.Assign) and isinstance(st.targets[0], ast.Name) and st.targets[0].id == "ROLE_SETTER_MAPPING" and isinstance(st.value, ast.Dict):
+            for k, v in zip(st.value.keys, st.value.values):
+                toks = P.const_values(None, m, k) if k is not None else None
+                cq = P.resolve_expr(m, v)
+                ci = P.classes.get(cq or "")
+                got = P.lookup_attr(ci, "role") if ci else None
+                if not toks or len(toks) != 1 or got is None or not isinstance(got[1], ast.Attribute):
+                    raise AnalysisError(f"ROLE_SETTER_MAPPING entry {src(k) if k is not None else '?'} is not (constant keyword -> class with a literal `role`)")
+                out[got[1].attr] = next(iter(toks))
+    if not out:
+        raise AnalysisError("vtlengine.Utils.ROLE_SETTER_MAPPING not found")
+    return out
 
 
 def _filter_truth(rep: Report, f: FuncInfo, key: str, predicate: str) -> None:
